@@ -219,6 +219,7 @@ ItemsForOp(op, mode) ==
   CASE op.o = "int"   -> IntItems(op.role)
     [] op.o = "str"   -> StrItems(op.cap, mode, "x")
     [] op.o = "bytes" -> BytesItems
+    [] op.o = "rest"  -> {It("bytes", "x", n, "-", "-") : n \in {"none", "some", "big"}}
     [] OTHER          -> {}
 
 \* a benign item for an operation: c = "ok" lets the replayer fill in the value
@@ -240,7 +241,7 @@ Lined(prog, mode, k) ==
 ProgInputs(ep, mode) ==
   LET prog == Prog(ep)
       isAd == \E j \in 1..Len(prog) : prog[j].o = "exprs"
-      nOps == Cardinality({j \in 1..Len(prog) : prog[j].o \in {"int", "str", "bytes"}})
+      nOps == Cardinality({j \in 1..Len(prog) : prog[j].o \in {"int", "str", "bytes", "rest"}})
   IN IF isAd
      THEN LET capk == (CHOOSE j \in 1..Len(prog) : prog[j].o = "exprs")
               bodies == AdBodies(prog[capk].cap, mode) IN
@@ -458,17 +459,19 @@ StrRead(it, kind, advance) ==
        \* (a cut item keeps its length prefix and loses half of its body; a cut
        \*  prefix is the cut integer of GetInt and the starved string below)
        IF declared < 0
-       THEN /\ Use(IntU, 0, 1) /\ Keep(<<budget, pc, ii, capx>>)
-            /\ IF "NegLenPanic" \in Bug THEN End("panic", FALSE) ELSE End("error", TRUE)
+       THEN \* a negative length.  (-2^63 does not fit the 32-bit length domain; how a
+            \* decoder narrows it is outside the statement, so only -1 obliges an error)
+            /\ Use(IntU, 0, 1) /\ Keep(<<budget, pc, ii, capx>>)
+            /\ IF "NegLenPanic" \in Bug THEN End("panic", FALSE) ELSE End("error", it.p = "neg1")
        ELSE IF capped /\ declared > cap /\ ~ignore
        THEN /\ Use(IntU + Min(Min(supplied, cap + CapSlack), declared), 2 * Max(cap, 0), 1)
-            /\ End("error", TRUE) /\ capx' = TRUE /\ Keep(<<budget, pc, ii>>)
+            /\ End("error", it.p # "two62") /\ capx' = (it.p # "two62") /\ Keep(<<budget, pc, ii>>)
        ELSE IF declared > supplied
        THEN \* the peer promised more than it sent: fail at the end of the input,
             \* having allocated in proportion to what arrived
             /\ Use(IntU + supplied,
                    IF "PeerSizedAlloc" \in Bug THEN declared ELSE 2 * supplied, 1)
-            /\ End("error", TRUE) /\ Keep(<<budget, pc, ii, capx>>)
+            /\ End("error", it.p # "two62") /\ Keep(<<budget, pc, ii, capx>>)
        ELSE /\ Use(IntU + declared, 2 * declared, 1)
             /\ Keep(<<status, strict, capx>>) /\ advance
             /\ budget' = IF kind = "budget" THEN budget - declared ELSE budget
